@@ -202,10 +202,16 @@ def task_coupling_search(pr, repo):
     C15.task_identify(pr, repo)
 
 
+def task_groups_exist(pr, repo):
+    # the groups of unlisted residues (ligands included) exist all the same: classification does not look at the selection (C01-CL)
+    from . import C01
+    C01.task_dispatch(pr, repo)
+
+
 def run(pr, repo):
     from . import C16
     # an unlisted residue still acts as charge / hydrogen-bond partner: pair terms are decided per term (iterative pairs included)
-    pr.parallel([(task_parse, ()), (task_init_group, ()), (task_setup_and_add, ()), (task_make_copy, ()), (C16.task_iterative, (True,)), (task_pair_loop, ()), (task_coupling_search, ())])
+    pr.parallel([(task_parse, ()), (task_init_group, ()), (task_setup_and_add, ()), (task_make_copy, ()), (C16.task_iterative, (True,)), (task_pair_loop, ()), (task_coupling_search, ()), (task_groups_exist, ())])
     c = frames.census(repo)
     readers = c.readers('titrate_only')
     extra = sorted(readers - {CC + '.init_group', 'propka.lib.loadOptions'})
